@@ -11,9 +11,8 @@ Hypothesis Himp : p_imports pd = [].
 Variables (L : lang) (pfx : str).
 Hypothesis Hdom : dom_C09 L pfx pd = true.
 
-(* the type the back end receives for a type position of the program *)
-Definition c09_recon_type (tp : c09_tpos) : rtype :=
-  match c9t_pos tp with C9Const => c9t_type tp | _ => check_type [] (c09_rn pd) [] (c9t_type tp) end.
+(* the type the back end receives for a type position of the program (a const's type included) *)
+Definition c09_recon_type (tp : c09_tpos) : rtype := check_type [] (c09_rn pd) [] (c9t_type tp).
 
 (* every name a back end spells for a type position, when it spells a mentioned id [i'] as
    "[i'] if it is one of [gs], else prefix ++ [i']", has one of the shapes of C09Common *)
